@@ -355,6 +355,19 @@ def gen_cases(ck):
                              {"entry": "api_nx", "graph": small_graph(rng, 2, "api_nx"), "fmt": 5 - fmt, "overwrite": False},
                              {"entry": "write_arrays", "graph": small_graph(rng, 3, "write_arrays"), "fmt": 5 - fmt, "overwrite": False}]
                     cases.append({"kind": kind, "sib": sib, "sib_fmt": fmt, "steps": steps, "stream": "cross-format", "cross": True})
+    # cross-format overwrite=True on str / Path / ~ targets without siblings, through every kind of entry point:
+    # must be indistinguishable from a fresh write (not part of the known finding)
+    nx = 0
+    for fmt in (2, 3):
+        for kind in ("path", "str") + K.TILDE_KINDS:
+            for entry in ("write_arrays", "api_nx", "ctc", "trackmate"):
+                nx += 1
+                if ck.quick and nx % 2 == (fmt % 2):
+                    continue
+                steps = [{"entry": entry, "graph": small_graph(rng, 1, entry), "fmt": fmt, "overwrite": False},
+                         {"entry": entry, "graph": small_graph(rng, 2, entry), "fmt": 5 - fmt, "overwrite": True},
+                         {"entry": entry, "graph": small_graph(rng, 3, entry), "fmt": fmt, "overwrite": True}]
+                cases.append({"kind": kind, "sib": False, "steps": steps, "stream": "cross-format-path", "cross": True})
     d = common.VERIF / "harness" / "corpus" / PROP
     corpus = [json.loads(f.read_text()) for f in sorted(d.glob("*.json"))] if d.is_dir() else []
     return corpus + cases
@@ -374,7 +387,10 @@ def judge(ck, r):
             ", with siblings)" if c.get("sib") else ")")
         # the known finding D16 concerns overwrite=True across formats only; without overwrite a geff in the
         # other format must still be refused with every byte unchanged
-        xf = cross and st["fmt"] != c["steps"][0]["fmt"] and bool(st.get("overwrite", False))
+        # … and it concerns store objects and shared containers only: on a str/Path/~ target WITHOUT sibling
+        # members the whole root is removed, so a cross-format overwrite must equal a fresh write there
+        xf = (cross and st["fmt"] != c["steps"][0]["fmt"] and bool(st.get("overwrite", False))
+              and (c["kind"] in ("mem", "local") or bool(c.get("sib"))))
         if not o["foreign_same"]:
             ck.fail("C06:overwrite-across-zarr-formats" if xf else "C06:foreign-content-changed",
                     f"{where}: foreign members / root attributes changed", cc, o.get("diff"), "foreign content byte-identical")
